@@ -1480,8 +1480,7 @@ class ArgumentParser(ParserDeprecations, ActionsContainer, ArgumentLinking, argp
                 if action.nargs in {None, "?"} or action.nargs == 0:
                     value = action.type(value)  # type: ignore[operator]
                 elif value is not None:
-                    for k, v in enumerate(value):
-                        value[k] = action.type(v)  # type: ignore[operator]
+                    value = [action.type(v) for v in value]  # type: ignore[operator]  # (a new list: the given one is the caller's)
             except (TypeError, ValueError) as ex:
                 raise TypeError(f'Parser key "{key}": {ex}') from ex
         if not is_subcommand and action.choices:
